@@ -282,6 +282,10 @@ def invalid_values(kind):
         return [('zero', 0), ('zero_f', 0.0), ('neg', -1.5), ('nan', {'t': 'nan'}),
                 ('inf', {'t': 'inf'}), ('ninf', {'t': 'ninf'}),
                 ('str', 'abc'), ('none', None),
+                ('numeric_str', '5'), ('numeric_str_f', ' 2.5 '),
+                ('numeric_str_e', '1e2'),
+                ('numeric_bytes', {'t': 'bytes', 'v': '5'}),
+                ('np_str', {'t': 'npstr', 'v': '3'}),
                 ('list', {'t': 'list', 'v': [1.0, 2.0]}),
                 ('arr0d', {'t': 'arr', 'v': 2.0}),
                 ('arr1d', {'t': 'arr', 'v': [1.0, 2.0]}),
@@ -290,6 +294,7 @@ def invalid_values(kind):
                 ('np_inf', {'t': 'npf', 'v': {'t': 'inf'}})]
     if kind == 'nvert':
         return [('zero', 0), ('neg', -3), ('str', 'a'), ('none', None),
+                ('numeric_str', '5'), ('numeric_bytes', {'t': 'bytes', 'v': '5'}),
                 ('list', {'t': 'list', 'v': [3]}), ('nan', {'t': 'nan'}),
                 ('inf', {'t': 'inf'})]
     if kind == 'asize':
@@ -300,6 +305,7 @@ def invalid_values(kind):
                 ('non_angular', Q(2.0, 'm')), ('dimensionless', Q(2.0, '')),
                 ('parsec', Q(3.0, 'pc')),
                 ('array', Q([1.0, 2.0], 'deg')), ('str', 'abc'),
+                ('quantity_str', '5 deg'), ('numeric_str', '5'),
                 ('none', None), ('pix_quantity', Q(2.0, 'pix')),
                 ('angle_array', {'t': 'angle', 'v': [1.0, 2.0], 'u': 'deg'}),
                 ('angle_array1', {'t': 'angle', 'v': [1.0], 'u': 'arcsec'}),
@@ -367,6 +373,10 @@ def _mutated_pixcoord(how):
 
 
 def build_invalid(rec):
+    if isinstance(rec, dict) and rec.get('t') == 'bytes':
+        return rec['v'].encode()
+    if isinstance(rec, dict) and rec.get('t') == 'npstr':
+        return np.str_(rec['v'])
     if isinstance(rec, dict) and rec.get('_mutated'):
         return _mutated_pixcoord(rec['_mutated'])
     if isinstance(rec, dict) and rec.get('_2d'):
